@@ -28,6 +28,7 @@ from .parse import (
     StatusAtt,
 )
 from .throttle import check_allow, login_failed
+from .utils import quoted
 
 # Allow circular imports for annotations
 #
@@ -946,7 +947,7 @@ class Authenticated(BaseClientHandler):
             * LIST (\\HasChildren) "/" "projects" ("CHILDINFO" ("SUBSCRIBED"))
         """
         attrs_str = " ".join(sorted(attributes))
-        line = f'* LIST ({attrs_str}) "/" "{mbox_name}"'
+        line = f'* LIST ({attrs_str}) "/" "{quoted(mbox_name)}"'
         if child_info:
             criteria = " ".join(f'"{c}"' for c in sorted(child_info))
             line += f' ("CHILDINFO" ({criteria}))'
@@ -989,7 +990,7 @@ class Authenticated(BaseClientHandler):
                 case StatusAtt.UNSEEN:
                     result.append(f"UNSEEN {len(mbox.sequences['unseen'])}")
 
-        return f'* STATUS "{mbox_name}" ({" ".join(result)})\r\n'
+        return f'* STATUS "{quoted(mbox_name)}" ({" ".join(result)})\r\n'
 
     ####################################################################
     #
@@ -1115,7 +1116,7 @@ class Authenticated(BaseClientHandler):
 
             if lsub:
                 attrs_str = " ".join(sorted(attributes))
-                msg = f'* LSUB ({attrs_str}) "/" "{mbox_name}"\r\n'
+                msg = f'* LSUB ({attrs_str}) "/" "{quoted(mbox_name)}"\r\n'
             else:
                 msg = self._fmt_list_response(mbox_name, attributes, child_info)
             await self.client.push(msg)
@@ -1179,7 +1180,7 @@ class Authenticated(BaseClientHandler):
                         result.append(f"UNSEEN {len(mbox.sequences['unseen'])}")
 
         await self.client.push(
-            f'* STATUS "{cmd.mailbox_name}" ({" ".join(result)})\r\n'
+            f'* STATUS "{quoted(cmd.mailbox_name)}" ({" ".join(result)})\r\n'
         )
 
     ##################################################################
